@@ -206,7 +206,12 @@ def gen_session(seed):
                 # the interpreter's range cache is full of other ranges when the reset happens; a range cached right after the
                 # reset must still be found when an equal literal is evaluated a moment later
                 k_ = rng.below(3)
-                sess.append(["snip", [["manyranges", g.id()]]])
+                if len(sess) % 2 == 0:
+                    # ... or exactly full, with the range that the next snippet asks for as its OLDEST entry: an interpreter that
+                    # carries the cache across the reset finds it, keeps its old stamp, and evicts it a moment later
+                    sess.append(["snip", [["setrange", k_], ["sevenranges", g.id()]]])
+                else:
+                    sess.append(["snip", [["manyranges", g.id()]]])
                 sess.append(["reset"])
                 sess.append(["snip", [["setrange", k_], ["cmprange", k_, g.id()], ["cmprange", k_, g.id()]]])
             elif rng.chance(0.4):
@@ -390,6 +395,10 @@ def render_snip(stmts, uid, stale=()):
             # (a throw-away range of its own first: one more distinct range for the interpreter's cache to cope with)
             out.append('var tr%s = 900..%d; print(("ev", %d, rg%d == %d..%d, {rg%d: 1}.has_key(%d..%d)));' % (
                 u, 901 + st[2], st[2], st[1], st[1] + 1, st[1] + 5, st[1], st[1] + 1, st[1] + 5))
+        elif k == "sevenranges":
+            # seven distinct ranges: together with one kept range the interpreter's range cache is exactly full
+            out.append('var sr%s = 0; for q in [200..201, 200..202, 200..203, 200..204, 200..205, 200..206, 200..207] { sr%s = sr%s + 1; } print(("ev", %d, sr%s));' % (
+                u, u, u, st[1], u))
         elif k == "manyranges":
             # ten distinct ranges at once: more than the interpreter's range cache holds
             out.append('var mr%s = 0; for q in [100..101, 100..102, 100..103, 100..104, 100..105, 100..106, 100..107, 100..108, 100..109, 100..110] { mr%s = mr%s + 1; } print(("ev", %d, mr%s));' % (
@@ -756,17 +765,26 @@ def model(ir, faults):
                     for k_ in st["range_age"]:
                         st["range_age"][k_] += 10
                     ev.append([num(stt[1]), num(10)])
+                elif k == "sevenranges":
+                    for k_ in st["range_age"]:
+                        st["range_age"][k_] += 7
+                    ev.append([num(stt[1]), num(7)])
                 elif k == "setrange":
                     st["ranges"].add(stt[1])
                     for k_ in st["range_age"]:
                         st["range_age"][k_] += 1
-                    st["range_age"][stt[1]] = 0
+                    # range_age[k] is an UPPER bound on the number of ranges the interpreter has cached since it cached this one.
+                    # Evaluating the literal again may find the cached object (which then keeps its place in the eviction order -
+                    # the cache does not refresh an entry it finds) or cache a new one: either way the old bound stays valid.
+                    # Only a range this interpreter has never built (since it was created or reset) is certainly new.
+                    if stt[1] not in st["range_age"]:
+                        st["range_age"][stt[1]] = 0
                 elif k == "cmprange":
                     if stt[1] not in st["ranges"]:
                         probes.inc("crash_at:nameerror_top")
                         raise Crash("NameError")
                     for k_ in st["range_age"]:
-                        st["range_age"][k_] += 1          # the throw-away range
+                        st["range_age"][k_] += 1 if k_ == stt[1] else 3          # the throw-away range (and, for the others, the two literals if they are not found)
                     if st["range_age"].get(stt[1], 99) <= 6:
                         # fewer distinct ranges have been created since this one than the cache holds: an equal literal is the same object
                         probes.inc("range_from_earlier_snippet_compared")
